@@ -82,6 +82,11 @@ def gen_c20(tier, seed):
     for limit, lax, semto, ncall, dur, scope in itertools.product([1, 2], [True, False], [-1, 0, 7, 25], [2, 3, 4], [5, 12, 30], ['global', 'class', 'self']):
         cs = [caller(key='k1', arrive=i, timeout=20, attempts=[('ok', dur)]) for i in range(ncall)]
         out.append(scn('s%d' % len(out), cs, limit=limit, lax=lax, semto=semto, scope=scope))
+    # the first caller (it acquires at once) is cancelled right after it entered the decorator, later callers must still find every slot
+    for limit, lax, scope, nlate, c_at in itertools.product([1, 2], [True, False], ['global', 'class', 'self'], [1, 2], [1, 2]):
+        cs = [caller(key='k1', arrive=0, timeout=20, attempts=[('ok', 9)], cancel_at=c_at)]
+        cs += [caller(key='k1', arrive=3 + i, timeout=20, attempts=[('ok', 4)]) for i in range(nlate + limit - 1)]
+        out.append(scn('s%d' % len(out), cs, limit=limit, lax=lax, semto=25, scope=scope))
     n = 600 if tier == 'quick' else 12000
     for _ in range(n):
         limit = rng.choice([1, 1, 2, 3])
@@ -121,6 +126,16 @@ def _perform(scn_list, clear_registry=True):
     if clear_registry:
         H.GLOBAL_RETRY_SEMAPHORES.clear()
     for s in scn_list:
+        # the periodic system-overload probe of the decorator (psutil, at most once per 5 s of real time) sits between acquiring the slot
+        # and the try / finally that releases it: make it run in every scenario (first call), with a stub instead of psutil's 0.1 s sample
+        H._last_overload_check = 0
+        H._check_system_overload = lambda: (False, '')
+        # no real threads under the virtual clock: a thread hop (asyncio.to_thread) is modelled as a suspension that takes 1.5 ms of virtual
+        # time, so that a cancellation scheduled one tick after a call entered the decorator can land inside it
+        async def _fake_to_thread(fn, /, *a, **k):
+            await asyncio.sleep(0.0015)
+            return fn(*a, **k)
+        asyncio.to_thread = _fake_to_thread
         log = []
         loop_holder = {}
 
